@@ -548,6 +548,12 @@ impl<'a> Exec<'a> {
         self.rep.count("mlar-invocations");
         run_mlar(self.bin, &self.root, args, None)
     }
+    fn run_with_stdin(&mut self, args: &[String], input: &[u8]) -> RunOut {
+        self.invocations += 1;
+        self.rep.count(&format!("cmd:{}", args[0]));
+        self.rep.count("mlar-invocations");
+        run_mlar(self.bin, &self.root, args, Some(input))
+    }
     fn viol_kind(&mut self, kind: &str, check: &str, sig: Value, what: String, args: &[String], out: Option<&RunOut>) {
         let mut c = self.case_json.clone();
         c["stage"] = json!(self.stage_idx);
@@ -688,21 +694,33 @@ impl<'a> Exec<'a> {
                 args.extend(self.reader_keys(prev));
             }
             args.extend(self.writer_opts(st));
+            let mut stdin_list: Option<Vec<u8>> = None;
             if si == 0 {
+                let mut file_args: Vec<String> = vec![];
                 match &case.create_order {
                     // replay of a recorded case: the files explicitly, in the order `create` added them then
                     // (the order of a directory recursion is the file system's)
                     Some(order) if order.len() == self.names.len() && order.iter().all(|i| self.names.iter().any(|(_, j)| j == i)) => {
                         for i in order {
                             let (n, _) = self.names.iter().find(|(_, j)| j == i).unwrap();
-                            args.push(n.clone());
+                            file_args.push(n.clone());
                         }
                     }
                     _ => {
                         for a in &case.args {
-                            args.push(arg_string(&self.root_s, a));
+                            file_args.push(arg_string(&self.root_s, a));
                         }
                     }
+                }
+                // one `create` in three takes its paths from standard input (`-`), one per line, exactly as written
+                let via_stdin = fnv(file_args.join("\u{0}").as_bytes()) % 3 == 1 && !file_args.is_empty() && file_args.iter().all(|a| !a.contains('\n') && !a.contains('\r') && !a.is_empty());
+                if via_stdin {
+                    args.push(s("-"));
+                    stdin_list = Some(file_args.iter().map(|a| format!("{a}\n")).collect::<String>().into_bytes());
+                    self.rep.count("create:paths-from-stdin");
+                } else {
+                    args.extend(file_args);
+                    self.rep.count("create:paths-as-arguments");
                 }
             }
             // one stage in three writes its archive to standard output (`-o -`): what comes out of the pipe
@@ -714,7 +732,7 @@ impl<'a> Exec<'a> {
             } else {
                 self.rep.count("output:file");
             }
-            let out = self.run(&args);
+            let out = match &stdin_list { Some(l) => self.run_with_stdin(&args, l), None => self.run(&args) };
             if to_stdout && out.ok() {
                 std::fs::write(self.abs(&format!("w/{}", st.out)), &out.stdout).expect("archive from stdout");
             }
